@@ -374,6 +374,19 @@ func mkLen(st *State, x Val, t types.Type) Val {
 		}
 	}
 	if sl, ok := x.(*SliceV); ok {
+		// constant bounds
+		if sl.Hi != nil {
+			if hi, isC := constInt(sl.Hi); isC {
+				lo := int64(0)
+				okLo := true
+				if sl.Lo != nil {
+					lo, okLo = constInt(sl.Lo)
+				}
+				if okLo && hi >= lo {
+					return intV(hi - lo)
+				}
+			}
+		}
 		// slice of an array pointer: constant length
 		if p, ok := sl.X.Type().Underlying().(*types.Pointer); ok && sl.Lo == nil && sl.Hi == nil {
 			if arr, ok := p.Elem().Underlying().(*types.Array); ok {
